@@ -93,6 +93,8 @@ class Result:
         self.signature = None     # specific site / history shape (for known findings)
         self.detail = ''
         self.digest = ''
+        self.rdigest = ''         # results only (no schedule): must repeat even if the code under
+                                  # test starts real threads / processes of its own
         self.stats = collections.Counter()
         self.inter_sig = ''       # abstract interleaving / history signature
         self.nontrivial = False
@@ -311,6 +313,7 @@ def run_batch(prop_name, tier, verif_seed, n_runs, wall_budget_s, workers=None, 
     inter = set()
     inter_nontrivial = set()
     digests = {}
+    rdigests = {}
     results_bad = []
     errors = []
     samples = []
@@ -352,6 +355,7 @@ def run_batch(prop_name, tier, verif_seed, n_runs, wall_budget_s, workers=None, 
                 if r.nontrivial:
                     inter_nontrivial.add(r.inter_sig)
                 digests[r.idx] = r.digest
+                rdigests[r.idx] = r.rdigest
                 for k in getattr(prop, 'PROGRESS_KEYS', ()):
                     if k not in witness and r.stats.get('attempt.' + k, 0) > 0 \
                             and r.stats.get('progress.' + k, 0) == 0:
@@ -384,12 +388,15 @@ def run_batch(prop_name, tier, verif_seed, n_runs, wall_budget_s, workers=None, 
     # determinism spot check: the first few run seeds are executed a second time (other process,
     # other position in the batch); a digest mismatch is a harness error, never a verdict
     recheck = [i for i in range(min(8, n_runs)) if i in digests]
-    n_redo_bad = 0
     for i in recheck:
         r2 = run_index(prop, verif_seed, i)
-        if r2.digest != digests[i]:
-            n_redo_bad += 1
-            errors.append('run %d is not deterministic: digest %s then %s' % (i, digests[i], r2.digest))
+        if (r2.rdigest or r2.digest) != (rdigests.get(i) or digests[i]):
+            errors.append('run %d is not deterministic: results digest %s then %s'
+                          % (i, rdigests.get(i) or digests[i], r2.rdigest or r2.digest))
+        elif r2.digest != digests[i]:
+            # same results under a different schedule: only possible when the code under test
+            # brings concurrency of its own that the simulator does not own (reported, not an error)
+            stats['schedule_digest_mismatches_with_equal_results'] += 1
     stats['determinism_rechecks'] = len(recheck)
 
     # batch-level progress rule (bounded liveness: well-formed, fault-free work must get done)
